@@ -194,7 +194,7 @@ def run(ctx, res):
         if r != m:
             res.corr_break('_get_mangle differs from the Lean mangle', {'prefix': job[0], 'aliases': job[1], 'names': job[2], 'code': r, 'model': m})
     # ---- import vs hand-inlined text
-    N = tier_scale(ctx['tier'], 450, 8000) * (3 if ctx['deepen'] else 1)
+    N = tier_scale(ctx['tier'], 2500, 30000) * (3 if ctx['deepen'] else 1)
     seeds = [rng.randrange(1 << 30) for _ in range(N)]
     for seed, (st, rec) in zip(seeds, pmap(_case, seeds, chunksize=4)):
         if st != 'ok':
